@@ -1740,6 +1740,9 @@ func (g *FuncGen) runGhostAt(callee string, ord int, env *Env, results []Val) {
 			case "check":
 				t := g.trBool(env, st.E, "")
 				g.addObl(&Obligation{Name: fmt.Sprintf("%s/call:%s@%d/check:%s", g.fnName, ga.Callee, ord, shortHash(st.Text)), Guard: g.bcond[g.curBlock], Goal: t, Kind: "call-site-check", Text: st.Text})
+				// assert-then-assume: later obligations on this path may rely on the checked fact (it has its own
+				// obligation), which lets a contract break a hard goal into steps
+				g.c.assert(implies(g.bcond[g.curBlock], t))
 			}
 		}
 	}
